@@ -30,6 +30,7 @@ type Profile struct {
 	AmountMax                   int
 	MaskSites                   []string
 	NoBuggify                   bool
+	BigIDs                      bool     // some runs start from a ledger whose transaction ids are already huge
 	DropKinds                   []string // op kinds removed (input masking of an open finding)
 }
 
@@ -84,7 +85,7 @@ var profiles = map[string]Profile{
 		Tpls:  []int{tplWorld, tplLit, tplVar, tplAll},
 		IKPct: 5, RefPct: 85, DryPct: 3, IKPool: 2, RefPool: 2, TargetPool: 2, FundMax: 8, AmountMax: 10},
 	// C13: every entry kind gets to be the last entry at a restart and the target of an IK retry
-	"audit": {Name: "audit", MaxClients: 3, MaxOps: 3, MaxGens: 4, MaxLedgers: 1, WKind: [5]int{4, 4, 3, 4, 4},
+	"audit": {Name: "audit", BigIDs: true, MaxClients: 3, MaxOps: 3, MaxGens: 4, MaxLedgers: 1, WKind: [5]int{4, 4, 3, 4, 4},
 		Tpls:  []int{tplWorld, tplLit, tplVar, tplSetAccountMeta, tplOverdraftUnbounded},
 		IKPct: 40, RefPct: 20, DryPct: 0, TSPct: 60, BigPct: 40, CrashPct: 70, ClockPct: 40, IKPool: 3, RefPool: 3, TargetPool: 4, FundMax: 30, AmountMax: 5},
 	// C16
@@ -214,7 +215,7 @@ func GenInput(t *rapid.T, p *Profile) *Input {
 	cfg := &in.Cfg
 	cfg.Ledgers = rapid.IntRange(1, max(1, p.MaxLedgers)).Draw(t, "ledgers")
 	cfg.Accounts = rapid.IntRange(2, 4).Draw(t, "accounts")
-	cfg.CacheSize = rapid.SampledFrom([]int{1, 2, 3, 1024}).Draw(t, "cache")
+	cfg.CacheSize = rapid.SampledFrom([]int{1, 1, 1024}).Draw(t, "cache")
 	cfg.BatchSize = rapid.SampledFrom([]int{1, 2, 3, 4096}).Draw(t, "batch")
 	if !p.NoBuggify {
 		nOff := rapid.IntRange(0, 4).Draw(t, "nSitesOff")
@@ -223,6 +224,9 @@ func GenInput(t *rapid.T, p *Profile) *Input {
 		}
 	}
 	cfg.MaskSites = p.MaskSites
+	if p.BigIDs && pct(t, 50, "bigIDs") {
+		cfg.TxIDBase = rapid.SampledFrom([]string{"16777217", "9007199254740993", "4294967296"}).Draw(t, "txIdBase")
+	}
 
 	// prelude: funding, the metadata-designated source, a few transactions to revert
 	for l := 0; l < cfg.Ledgers; l++ {
